@@ -106,6 +106,15 @@ class AbsBuf:
             return Native(rev, "bytearray.reverse")
         if attr == "translate":
             return Native(lambda ev, a, k, n: self.translate(a[0], node), "bytearray.translate")
+        if attr == "isascii":
+            def isascii(ev, a, k, n):
+                # a fact about every element: on the True branch the generic element is below 128 too
+                r = B.cur().choose("%s.isascii()" % self.name)
+                if r:
+                    B.assume_ge0(Aff(127) - Aff.of(self.val))
+                    B._check_alive()
+                return r
+            return Native(isascii, "bytearray.isascii")
         if attr == "find":
             def find(ev, a, k, n):
                 needle = _one_byte(a[0] if a else None)
